@@ -17,6 +17,8 @@
 package main
 
 import (
+	"crypto"
+	_ "crypto/sha256"
 	"fmt"
 	"os"
 	"runtime"
@@ -114,6 +116,7 @@ func main() {
 		fatal("scratch dir: %v", err)
 	}
 	defer os.RemoveAll(tmp)
+	dergen.HashByOID["2.16.840.1.101.3.4.2.4"] = crypto.SHA224 // the shared walker's table has no SHA-224 entry
 	if fx, err = dergen.LoadFixtures(); err != nil {
 		fatal("fixtures: %v", err)
 	}
@@ -244,12 +247,12 @@ func main() {
 
 func boundsText(thorough bool) map[string]any {
 	return map[string]any{
-		"jar":  "shapes: members 1..3 x (stored|deflated) x size {0,1,8192} (258) + name family (manifest line lengths 64..76 ASCII, 150, 230; 2/3/4-byte UTF-8 sequence at every byte offset 64..78 of the Name line; 60 three-byte characters; blanks and colon; META-INF/services member). quick: all shapes x rsaA x sha256 x default flags  U  3 canonical shapes x keys{rsaA,p256A,p384} x digests{sha1,sha256,sha384,sha512} x {inline-signature} x {sections-only} (+openssl cms; jarsigner CLI on 2 canonical shapes x keys x sha256 x 4 flag sets; RFC 3161 on 1 canonical shape x {rsaA,p256A} x {default, inline-signature}). thorough: all shapes x {rsaA,p256A} x {sha256,sha1} x 4 flag sets  U  canonical x keys+p521 x digests+sha224 x 4 flag sets (CLI also with sha1, sha512)",
+		"jar":  "shapes: members 1..3 x (stored|deflated) x size {0,1,8192} (258) + name family (manifest line lengths 64..76 ASCII, 150, 230; 2/3/4-byte UTF-8 sequence at every byte offset 64..78 of the Name line; 60 three-byte characters; blanks and colon; META-INF/services member). + 7 input-manifest spellings (LF, CR, no final blank line, minimal, existing sections, folded main attribute). quick: all shapes x {rsaA,p256A} x sha256 x 4 flag sets  U  3 canonical shapes x keys{rsaA,p256A,p384} x digests{sha1,sha256,sha384,sha512} x {inline-signature} x {sections-only} (+openssl cms; jarsigner CLI on 2 canonical shapes x keys x sha256 x 4 flag sets; RFC 3161 on 1 canonical shape x {rsaA,p256A} x {default, inline-signature}). thorough: all shapes x keys+p521 x {sha256,sha1,sha384,sha512} x 4 flag sets  U  canonical x keys+p521 x digests+sha224 x 4 flag sets (CLI also with sha1, sha512; RFC 3161 for every key)",
 		"apk":  "shapes: 6 small (AndroidManifest.xml + META-INF/MANIFEST.MF + stored/deflated/empty members; one without a JAR manifest) + section-1 length exactly {1MiB-1, 1MiB, 1MiB+1, 2MiB-1, 2MiB, 2MiB+1, 2MiB+4097} (v2-only packages hit these exactly; v1+v2 packages are near them, the class reached is tallied) x {v2-only, v1+v2} x keys x {sha256,sha512}; sha1 and sha384 on one shape (expected refusals)",
-		"pe":   "shapes: {PE32,PE32+} x sections 1..3 x raw size {512,4096,4608} x overlay {0,1,7,8,9} x input CheckSum field {zero, correct for the unsigned image} (780) + e_lfanew family {64,68,72,248,512,4008,4006, CheckSum field at 32768-8..32768+4 and 65536-8..65536+4} x {PE32,PE32+} x overlay {0,1} x input CheckSum {zero, correct} (264) + 2 .NET fixtures. quick: all shapes x rsaA x sha256 x {page-hashes off,on}  U  4 canonical shapes x keys x digests{sha1,sha256,sha384,sha512} x page-hashes (+openssl dgst)  U  canonical x already signed by rsaB / generator-written certificate table  U  RFC 3161 on 1 shape x {rsaA,p256A}. thorough: all shapes x {rsaA,p256A} x {sha256,sha1,sha384} x page-hashes",
-		"ps":   "texts: {CRLF,LF,CR-only} x {final newline, none}, one line, blank lines (+2 non-ASCII texts for BOM encodings) x encoding {ASCII, UTF-8 BOM, UTF-16LE BOM} x style {.ps1,.ps1xml,.mof} (84) x keys x digests{sha1,sha256,sha384,sha512}",
+		"pe":   "shapes: {PE32,PE32+} x sections 1..3 x raw size {512,4096,4608} x overlay {0,1,7,8,9} x input CheckSum field {zero, correct for the unsigned image} (780) + e_lfanew family {64,68,72,248,512,4008,4006, CheckSum field at 32768-8..32768+4 and 65536-8..65536+4} x {PE32,PE32+} x overlay {0,1} x input CheckSum {zero, correct} (264) + 2 .NET fixtures. quick: all shapes x rsaA x sha256 x {page-hashes off,on} (+p256A on every one-section shape, which includes the e_lfanew family)  U  4 canonical shapes x keys x digests{sha1,sha256,sha384,sha512} x page-hashes (+openssl dgst)  U  canonical x {already signed by rsaB, generator-written certificate table holding a foreign PKCS#7}  U  RFC 3161 on 1 shape x {rsaA,p256A}. thorough: all shapes x {rsaA,p256A,p384} x {sha256,sha1,sha384,sha512} x page-hashes (sha384/sha512 with page hashes are refused by relic and tallied)",
+		"ps":   "texts: {CRLF,LF,CR-only} x {final newline, none}, one line, blank lines (+3 non-ASCII texts for BOM encodings, one whose UTF-16 code units contain a 0x0A byte) x encoding {ASCII, UTF-8 BOM, UTF-16LE BOM} x style {.ps1,.ps1xml,.mof} (90) x keys x digests{sha1,sha256,sha384,sha512}",
 		"cab":  "dummy.cab + generated single-folder uncompressed cabinets with file sizes {[1],[100],[40000],[1,100],[32768,1]} x keys x digests{sha1,sha256,sha384,sha512}",
-		"msi":  "dummy.msi + cfbgen families names, storage, nested-signame, layout, sizes(quick: <=2 streams; thorough: <=3 + dircount + fatfull). quick: all shapes x rsaA x sha256 x {extended, no-extended-sig}  U  dummy.msi x keys x digests x both. thorough: all shapes x {rsaA,p256A} x {sha256,sha1} x both",
+		"msi":  "dummy.msi + cfbgen families names, storage, nested-signame, layout, sizes(quick: <=2 streams; thorough: <=3 + dircount + fatfull). quick: all shapes x rsaA x sha256 x {extended, no-extended-sig}  U  dummy.msi x keys x digests x both. thorough: all shapes x {rsaA,p256A,p384} x {sha256,sha1,sha384,sha512} x both",
 		"xml":  "appmanifest fixture x keys x digests{sha1,sha256,sha384,sha512} (+RFC 3161 x {rsaA,p256A}); VSIX fixture x keys x digests(+sha224 thorough) x {detach-certs}",
 		"pgp":  "11 texts (final newline or not, trailing blanks, dash lines, CRLF, mixed endings, empty, newline only, trailing blank lines, UTF-8, 5000-char line) x all 16 subsets of {armor,inline,clearsign,textmode} x keys {rsaA (+rsaB thorough)} x digests {sha256,sha512 (+sha1,sha224,sha384 thorough)}; p256A on 2 cases (expected refusal). deb: fixture + 2 generated packages x role {builder,origin,maint,archive} x digests {sha256,sha512} (+ a second role added on top); rpm: rocky fixture x {rsaA,rsaB} x {sha1,sha256,sha512}",
 		"other": "cat (hyperv.cat), appx (App1), xap (dummy.xap) x keys x sha256 (+RFC 3161 on rsaA): CMS checks only",
@@ -304,7 +307,11 @@ func planJar(thorough bool, keys []string) {
 			}
 		}
 	}
-	for _, k := range []string{"rsaA", "p256A"} {
+	tsKeys := []string{"rsaA", "p256A"}
+	if thorough {
+		tsKeys = keys
+	}
+	for _, k := range tsKeys {
 		for _, fl := range []map[string]string{{}, {"inline-signature": "true"}} {
 			c := mk(canon[0], k, "sha256", fl, true)
 			in := canon[0].jarBytes()
@@ -312,20 +319,21 @@ func planJar(thorough bool, keys []string) {
 		}
 	}
 	// all shapes
+	ks, hs := []string{"rsaA", "p256A"}, []string{"sha256"}
+	sub := "all shapes x {rsaA,p256A} x sha256 x 4 flag sets"
+	if thorough {
+		ks, hs = keys, []string{"sha256", "sha1", "sha384", "sha512"}
+		sub = "all shapes x {rsaA,p256A,p384,p521} x {sha256,sha1,sha384,sha512} x 4 flag sets"
+	}
 	for _, s := range shapes {
 		in := s.jarBytes()
-		if thorough {
-			for _, k := range []string{"rsaA", "p256A"} {
-				for _, h := range []string{"sha256", "sha1"} {
-					for _, fl := range fsets {
-						c := mk(s, k, h, fl, false)
-						plan("jar", "all shapes x {rsaA,p256A} x {sha256,sha1} x flags", func() { runJarCase(c, in, jarOpts{}) })
-					}
+		for _, k := range ks {
+			for _, h := range hs {
+				for _, fl := range fsets {
+					c := mk(s, k, h, fl, false)
+					plan("jar", sub, func() { runJarCase(c, in, jarOpts{}) })
 				}
 			}
-		} else {
-			c := mk(s, "rsaA", "sha256", map[string]string{}, false)
-			plan("jar", "all shapes x rsaA x sha256 x default flags", func() { runJarCase(c, in, jarOpts{}) })
 		}
 	}
 }
@@ -408,7 +416,25 @@ func planPE(thorough bool, keys []string) {
 			plan("pe", "already signed input", func() { runPECase(c, in.data, peOpts{presign: true}) })
 		}
 	}
-	for _, k := range []string{"rsaA", "p256A"} {
+	// a certificate table written by the generator, holding a genuine foreign
+	// PKCS#7 (the signtool signature of the self-check sample)
+	{
+		ev := mustRead("/verif/ref/py/testdata/ev-signed-file.exe")
+		foreign := ev[10760 : 10760+7387+4]
+		for i, s := range canon {
+			in := canonIn[i]
+			data := attachCertTable(in.data, s, foreign)
+			for _, ph := range []bool{false, true} {
+				c := mk(in.id+"/foreign-certificate-table", append([]string{"presigned"}, in.cls...), "rsaA", "sha256", ph, false, in.gen)
+				plan("pe", "already signed input", func() { runPECase(c, data, peOpts{}) })
+			}
+		}
+	}
+	tsKeys := []string{"rsaA", "p256A"}
+	if thorough {
+		tsKeys = keys
+	}
+	for _, k := range tsKeys {
 		in := canonIn[0]
 		c := mk(in.id, in.cls, k, "sha256", false, true, in.gen)
 		plan("pe", "rfc3161", func() { runPECase(c, in.data, peOpts{ossl: true}) })
@@ -418,11 +444,14 @@ func planPE(thorough bool, keys []string) {
 		data := buildPE(s)
 		ks := []string{"rsaA"}
 		hs := []string{"sha256"}
-		sub := "all shapes x rsaA x sha256 x page-hashes{off,on}"
+		sub := "all shapes x rsaA x sha256 x page-hashes{off,on} (+p256A on the one-section shapes incl. the whole e_lfanew family)"
 		if thorough {
+			ks = []string{"rsaA", "p256A", "p384"}
+			hs = []string{"sha256", "sha1", "sha384", "sha512"}
+			sub = "all shapes x {rsaA,p256A,p384} x {sha256,sha1,sha384,sha512} x page-hashes{off,on}"
+		} else if len(s.RawSizes) == 1 {
 			ks = []string{"rsaA", "p256A"}
-			hs = []string{"sha256", "sha1", "sha384"}
-			sub = "all shapes x {rsaA,p256A} x {sha256,sha1,sha384} x page-hashes{off,on}"
+			sub = "all shapes x rsaA x sha256 x page-hashes{off,on} (+p256A on the one-section shapes incl. the whole e_lfanew family)"
 		}
 		for _, k := range ks {
 			for _, h := range hs {
@@ -503,9 +532,9 @@ func planMSI(thorough bool, keys []string) {
 		hs := []string{"sha256"}
 		sub := "all shapes x rsaA x sha256 x {extended, no-extended-sig}"
 		if thorough {
-			ks = []string{"rsaA", "p256A"}
-			hs = []string{"sha256", "sha1"}
-			sub = "all shapes x {rsaA,p256A} x {sha256,sha1} x {extended, no-extended-sig}"
+			ks = []string{"rsaA", "p256A", "p384"}
+			hs = []string{"sha256", "sha1", "sha384", "sha512"}
+			sub = "all shapes x {rsaA,p256A,p384} x {sha256,sha1,sha384,sha512} x {extended, no-extended-sig}"
 		}
 		for _, k := range ks {
 			for _, h := range hs {
